@@ -236,8 +236,16 @@ fn judge(reference: &RunOut, out: &RunOut, strat: &Strategy, ec: &EncCase) -> Op
                             (false, true) => "transcoder-drops-last-bytes-at-eof-with-small-buffer",
                             _ => "content-starting-with-U+FEFF-loses-it-after-mark+transcoder-drops-last-bytes-at-eof",
                         };
+                        // The removal of a leading U+FEFF is a known finding only where it is known to
+                        // happen: the class names the mark, whether a label was given, and the strategy.
+                        let class = if strip {
+                            let mark = if ec.case.data.starts_with(b"\xEF\xBB\xBF") { "utf8-mark" } else if ec.case.data.starts_with(b"\xFF\xFE") || ec.case.data.starts_with(b"\xFE\xFF") { "utf16-mark" } else { "no-mark" };
+                            format!("{class}:{mark}{}:{kind}", if ec.case.cfg.encoding.is_some() { "+label" } else { "" })
+                        } else {
+                            class.to_string()
+                        };
                         return Some((
-                            class.to_string(),
+                            class,
                             format!("{}: results equal those of the UTF-8 equivalent{}{}", strat.name(),
                                 if strip { " without its leading U+FEFF (removed together with the byte-order mark)" } else { "" },
                                 if cut > 0 { format!(" without its final {cut} byte(s) (pending decoder output at end of input, fewer than 4 bytes of room in the caller's buffer)") } else { String::new() }),
